@@ -4,6 +4,9 @@ import json, os
 ROOT = os.path.dirname(os.path.dirname(os.path.abspath(__file__)))
 
 CLAIMED = {
+    "C02": ("§4 C02", "HTTPStream.app_send response mapping for every status/method/version/chunking shape, suppress_body for every int status, H11/H2 stream_send header composition for every status and counter value"),
+    "C08": ("§4 C08", "StreamBuffer watermark logic for all chunk/pop sizes: one-step rules, an inductive invariant that implies a fixed bound on held data for histories of any length, bounded operation sequences incl. close/drain release"),
+    "C12": ("§4 C12", "ASGI send automaton conformance (HTTP and WebSocket) for every bounded message sequence with valid and invalid payloads; header validation over a CR/LF/NUL/':' alphabet"),
     "C19": ("§4 C19", "CLI flag wiring for every flag with unbounded int / short symbolic str values, config-file + CLI interaction, loader agreement (mapping/kwargs/object/pyfile/TOML)"),
 }
 
